@@ -6,6 +6,8 @@ CONSTANTS
   RepackCommitBeforeFsync = TRUE
   RepackUnlinkOldFirst = FALSE
   SeekBackWithoutTruncate = FALSE
+  RepackNoIntermediateCommit = FALSE
+  ImportFsyncOnlyLast = FALSE
   DeleteIndexFirst = FALSE
 INVARIANT Recoverable
 INVARIANT KeysUnique
